@@ -86,6 +86,7 @@ func treeHash() (string, error) {
 	}); err != nil {
 		return "", err
 	}
+	fmt.Fprintf(h, "heapwrites=%s\x00", os.Getenv("VERIF_HEAPWRITES"))
 	for _, d := range []string{"sim", "plugsim"} {
 		if _, err := os.Stat(filepath.Join(verifDir, d)); err != nil {
 			continue
